@@ -65,6 +65,25 @@ def is_truthy(code):
     return code in TRUTHY_CODES
 
 
+class _NoYield:
+    """Awaitable that completes at once."""
+
+    def __await__(self):
+        return None
+        yield
+
+
+class Yield:
+    """Awaitable that suspends exactly once, handing ``tag`` to whoever drives the coroutine."""
+
+    def __init__(self, tag):
+        self.tag = tag
+
+    def __await__(self):
+        yield self.tag
+        return None
+
+
 class ProgError(Exception):
     """Custom Exception raised by generated bodies / used as custom error class."""
 
@@ -229,6 +248,14 @@ class _V:
         if ret == "emptylist":
             return run.tok("ret:%s.%d" % (fname, n), lambda: [])
         return {"None": None, "0": 0, "''": "", "False": False}[ret]
+
+    # -- gates: suspension points owned by the harness (C11 cancellation, C12 schedules) ---------------
+    def gate(self, kind, ident):
+        run = self.run
+        g = run.hooks.get(("gate", kind, ident)) if run is not None else None
+        if g is None:
+            return _NoYield()
+        return g(run)
 
     def note(self, *ev):
         self.run.event(tuple(ev))
